@@ -2,6 +2,7 @@ package bytecode
 
 import (
 	"fmt"
+	"math"
 
 	"evylang.dev/evy/pkg/parser"
 )
@@ -489,6 +490,10 @@ func (c *Compiler) compileProgram(prog *parser.Program) error {
 		if err := c.Compile(s); err != nil {
 			return err
 		}
+	}
+	if len(c.instructions) > math.MaxUint16 {
+		// jump targets are 16 bit positions: a patched jump beyond that would wrap around
+		return fmt.Errorf("%w: program too large: %d bytes of instructions", ErrOperandRange, len(c.instructions))
 	}
 	return nil
 }
